@@ -669,3 +669,25 @@ fault("c03-maildir-message-creates", "C03", "R03e", (MBOX, "        return Maild
 fault("c08-extstrip-after-cap", "C08", "R08e", (UMN, "        except IOError:  # Ignore no capfile situation\n            pass\n", "        except IOError:  # Ignore no capfile situation\n            pass\n        if fileentry.getname():\n            fileentry.setname(fileentry.getname().rsplit('.', 1)[0])\n"))
 fault("c05-mail-message-side-filtered", "C05", "R05d", (MBOX, "            mailbox = iter(self.openmailbox())", "            mailbox = (m for m in self.openmailbox() if m.get('X-Status') != 'D')"))
 twin("c05-twin-mail-no-iter", "C05", (MBOX, "            mailbox = iter(self.openmailbox())", "            box = self.openmailbox()\n            mailbox = iter(box)"))
+
+# --- R08g link-file text
+fault("c08-host-plus-not-resolved", "C08", "R08g", (UMN, "                entry.getneedsabspath()\n                and entry.gethost() is None\n                and entry.getport() is None\n", "                entry.getneedsabspath()\n                and not done[\"host\"]\n                and not done[\"port\"]\n"))
+fault("c08-tilde-path-not-merged", "C08", "R08g", (UMN, 'if len(line) >= 7 and (line[5:7] == "./" or line[5:7] == "~/"):', 'if len(line) >= 7 and line[5:7] == "./":'))
+fault("c08-trailing-slash-kept", "C08", "R08g", (UMN, '                if len(pathname) and pathname[-1] == "/":\n                    pathname = pathname[0:-1]\n', ""))
+fault("c08-abstract-continuation-lost", "C08", "R08g", (UMN, '                    abstractstr += abstractline[0:-1] + "\\n"', '                    abstractstr += abstractline[0:-1]'))
+fault("c08-comment-ends-block-early", "C08", "R08g", (UMN, '                if done["path"]:\n                    break\n                else:\n                    continue', "                break"))
+twin("c08-twin-path-startswith", "C08", (UMN, 'if len(line) >= 7 and (line[5:7] == "./" or line[5:7] == "~/"):', 'if len(line) >= 7 and line[5:].startswith(("./", "~/")):'))
+fault("c16-negative-cache-prefix", "C16", "R16g", (ZIPF, "        elif dir_ in self.invalid_paths:", "        elif any(dir_.startswith(p) for p in self.invalid_paths):"))
+fault("c16-lookup-case-insensitive", "C16", "R16g", (ZIPF, "                inode = directory[item]\n", "                inode = directory[item] if item in directory else directory[item.lower()]\n"))
+
+# --- batch 3 rules
+PBASEF = "pygopherd/protocols/base.py"
+fault("c20-filenotfound-none-resub", "C20", "R20b", (PBASEF, "    def filenotfound(self, msg: str):\n", "    def filenotfound(self, msg: str):\n        msg = msg.replace(\"\\t\", \" \")\n"))
+twin("c20-twin-filenotfound-str-first", "C20", (PBASEF, "    def filenotfound(self, msg: str):\n", "    def filenotfound(self, msg: str):\n        msg = str(msg)\n        msg = msg.replace(\"\\t\", \" \")\n"))
+fault("c17-repeat-no-pcforward-reset", "C17", "R17j", (TALPY, "\t\t\tself.tagContent = None\n\t\t\tself.movePCForward = None\n", "\t\t\tself.tagContent = None\n"))
+fault("c17-repeat-no-outputtag-reset", "C17", "R17j", (TALPY, "\t\t\tself.outputTag = 1\n\t\t\tself.tagContent = None\n\t\t\tself.movePCForward = None\n", "\t\t\tself.tagContent = None\n\t\t\tself.movePCForward = None\n"))
+fault("c17-program-state-drops-flag", "C17", "R17d", (TALPY, "\t\t\t\t,self.tagContent\n\t\t\t\t,self.localVarsDefined)", "\t\t\t\t,self.tagContent)"),
+      (TALPY, "self.repeatAttributesCopy,self.tagContent,self.localVarsDefined = vars", "self.repeatAttributesCopy,self.tagContent = vars"))
+fault("c18-program-state-drops-flag", "C18", "R18c", (TALPY, "\t\t\t\t,self.tagContent\n\t\t\t\t,self.localVarsDefined)", "\t\t\t\t,self.tagContent)"),
+      (TALPY, "self.repeatAttributesCopy,self.tagContent,self.localVarsDefined = vars", "self.repeatAttributesCopy,self.tagContent = vars"))
+fault("c12-linkfiles-read-after-walk", "C12", "R12a", (UMN, "        fileentriesdict = {}\n        for entry in self.fileentries:", "        for lf in self.linkentries:\n            self.processLinkFile(lf.selector)\n        fileentriesdict = {}\n        for entry in self.fileentries:"))
